@@ -104,7 +104,9 @@ theorem regen_partition (plusplus m : Bool) (args : List Argument) (p : Parsed) 
         · cases hf
         · split at hf
           · cases hf
-          · cases hf; exact ⟨_, _, rfl⟩
+          · split at hf
+            · cases hf
+            · cases hf; exact ⟨_, _, rfl⟩
   obtain ⟨input, lang, rfl⟩ := hpw
   refine ⟨hp.2.1, hp.2.2.2.1, hp.2.2.2.2, ⟨_, by simp only [finishWith]; rw [hp.1]⟩, ⟨_, by simp only [finishWith]; rw [hp.2.2.1, List.append_assoc]⟩⟩
 
